@@ -20,6 +20,7 @@ import (
 	"github.com/microsoft/yardl/tooling/internal/iocommon"
 	"github.com/microsoft/yardl/tooling/internal/matlab"
 	"github.com/microsoft/yardl/tooling/internal/python"
+	"github.com/microsoft/yardl/tooling/internal/verifhook"
 	"github.com/microsoft/yardl/tooling/pkg/dsl"
 	"github.com/microsoft/yardl/tooling/pkg/packaging"
 	"github.com/spf13/cobra"
@@ -125,6 +126,7 @@ func dedupLoop(configArgs map[string]string, w *fsnotify.Watcher, completedChann
 				return
 			}
 
+			verifhook.Event("timer.reset")
 			timer.Reset(waitFor)
 		}
 	}
@@ -140,6 +142,8 @@ func generateInWatchMode(configArgs map[string]string) []string {
 		}
 	}()
 
+	verifhook.Point("regen.start")
+	defer verifhook.Event("regen.end")
 	packageInfo, warnings, err := generateImpl(configArgs)
 	screen.Clear()
 	screen.MoveTopLeft()
@@ -196,6 +200,8 @@ func generateImpl(configArgs map[string]string) (*packaging.PackageInfo, []strin
 	if err != nil {
 		return packageInfo, warnings, err
 	}
+
+	verifhook.Point("regen.validated")
 
 	if packageInfo.Cpp != nil && !packageInfo.Cpp.Disabled {
 		err = cpp.Generate(env, *packageInfo.Cpp)
